@@ -57,6 +57,96 @@ def formula(ck, repo, nf, rule, q, spec, key="formula", self_class=None):
     return got
 
 
+def _min_leaves(nf, atom):
+    """Leaves of a nested minimum(...) atom (canonical texts)."""
+    m = nf.meta.get(atom, {})
+    if m.get("fn") in ("minimum", "min") and len(m.get("args", [])) >= 2 and not m.get("kws"):
+        out = []
+        for a in m["args"]:
+            sa = a.single_atom()
+            out += _min_leaves(nf, sa) if sa and nf.meta.get(sa, {}).get("fn") in ("minimum", "min") else [a]
+        return out
+    return None
+
+
+def _cem_sample(ck, repo, nf, CS):
+    """candidates = Z * sqrt(V) + mean with |Z| <= T and V <= (c*(mean-lb))^2, (c*(ub-mean))^2, T*c <= 1  =>  lb <= candidates <= ub;
+    or an outermost clip(., lb, ub)."""
+    fn = repo.func(CS)
+    mi = fn._module
+    env = _env(fn)
+    got = nf.return_poly(CS, env)
+    where = loc(mi, fn)
+    sa = got.single_atom()
+    if sa and nf.meta.get(sa, {}).get("fn") == "clip":
+        args = [x.canon() for x in nf.meta[sa].get("args", [])[1:]]
+        ok = args in (["lb", "ub"], ["lb[jnp.newaxis]", "ub[jnp.newaxis]"], ["lb[numpy.newaxis]", "ub[numpy.newaxis]"])
+        ck.ob("R4-cem-proposal", CS, "bounded", ok, f"return {sa[:120]}", "" if ok else "candidates are clipped to something else than [lb, ub]", where)
+        return
+    # affine form  Z*S + M
+    mean_b = [a for a in got.atoms() if a.startswith("mean[")]
+    if len(got.terms) != 2 or len(mean_b) != 1:
+        raise AnalysisError(f"{CS}: candidates `{got.canon()[:140]}` are neither clip(., lb, ub) nor noise*std + mean (unrecognised idiom)")
+    noise_term = [(m_, c_) for m_, c_ in got.terms.items() if not any(a == mean_b[0] for a, _ in m_)]
+    ck.need(len(noise_term) == 1 and noise_term[0][1] == 1 and len(noise_term[0][0]) == 2, f"{CS}: perturbation term of `{got.canon()[:140]}` not recognised")
+    atoms = [a for a, e in noise_term[0][0]]
+    z = next((a for a in atoms if "truncated_normal(" in a), None)
+    sd = next((a for a in atoms if a != z), None)
+    if z is None:
+        ck.ob("R4-cem-proposal", CS, "bounded", False, f"return {got.canon()[:140]}", "the perturbation is not drawn from a truncated distribution: candidates are unbounded", where)
+        return
+    zm = nf.meta.get(z, {})
+    try:
+        lo, hi = float(zm["args"][1].const_value()), float(zm["args"][2].const_value())
+    except Exception:
+        raise AnalysisError(f"{CS}: truncation bounds of `{z[:80]}` are not constants")
+    T = max(abs(lo), abs(hi))
+    # sd = sqrt(V)[newaxis] -> V
+    inner = sd
+    while nf.meta.get(inner, {}).get("fn") == "subscript" and nf.meta[inner].get("args"):
+        nxt = nf.meta[inner]["args"][0].single_atom()
+        if not nxt:
+            break
+        inner = nxt
+    im = nf.meta.get(inner, {})
+    is_sqrt = (im.get("fn") == "sqrt" and im.get("args")) or (im.get("fn") == "pow" and len(im.get("args", [])) == 2 and im["args"][1].canon() == "1/2")
+    if not is_sqrt:
+        raise AnalysisError(f"{CS}: scale factor `{sd[:100]}` is not sqrt(variance) (unrecognised idiom)")
+    V = im["args"][0]
+    va = V.single_atom()
+    leaves = _min_leaves(nf, va) if va else None
+    if leaves is None:
+        ck.ob("R4-cem-proposal", CS, "bounded", False, f"variance = {V.canon()[:120]}", "the variance used for sampling is not limited by the distance to the bounds: candidates can leave [lb, ub]", where)
+        return
+    sc = Scope(None, mi, env, CS)
+    dl = nf.poly(parse_expr("(mean - lb) ** 2"), sc, None)
+    du = nf.poly(parse_expr("(ub - mean) ** 2"), sc, None)
+
+    def coeff(leaf, d):
+        # leaf == k * d  for a rational k ?
+        if not leaf.terms or not d.terms:
+            return None
+        ks = set()
+        for m_, c_ in d.terms.items():
+            if m_ not in leaf.terms:
+                return None
+            ks.add(leaf.terms[m_] / c_)
+        return ks.pop() if len(ks) == 1 and len(leaf.terms) == len(d.terms) else None
+    kl = [k for k in (coeff(l, dl) for l in leaves) if k is not None]
+    ku = [k for k in (coeff(l, du) for l in leaves) if k is not None]
+    side = []
+    if not kl:
+        side.append("lower")
+    if not ku:
+        side.append("upper")
+    if side:
+        ck.ob("R4-cem-proposal", CS, "bounded", False, f"variance = min{[l.canon()[:40] for l in leaves]}", f"the sampling variance is not limited by the squared distance to the {' and '.join(side)} bound: candidates can cross it", where)
+        return
+    ok = T * T * float(min(kl)) <= 1.0 + 1e-12 and T * T * float(min(ku)) <= 1.0 + 1e-12
+    ck.ob("R4-cem-proposal", CS, "bounded", ok, f"|Z| <= {T:g}, variance <= {float(min(kl)):g}*(mean-lb)^2 and {float(min(ku)):g}*(ub-mean)^2",
+          "" if ok else f"|Z|*std can reach {T * float(min(min(kl), min(ku))) ** 0.5:.3g} times the distance to a bound (> 1): candidates can leave [lb, ub]", where)
+
+
 def run(ck, repo: Repo, tier: str):
     nf = NF(repo, inline_depth=3)
     res = Resolver(repo)
@@ -150,19 +240,32 @@ def run(ck, repo: Repo, tier: str):
         ok = txt.startswith("self.policy_net(") if spec is None else txt == spec
         ck.ob("R3-tanh-head", f"{cq}.{meth}", "ends-in-tanh-policy", ok, f"return {txt}", "" if ok else "the action must be the output of the wrapped tanh policy (nothing applied after the scaling)", loc(repo.cls(cq)._module, m[1]))
 
-    # R4 CEM proposal
+    # R4 CEM proposal: every candidate lies in [lb, ub]
     CS = "rl_blox.blox.cross_entropy_method.cem_sample"
-    formula(ck, repo, nf, "R4-cem-proposal", CS, "jax.random.truncated_normal(step_key, -2.0, 2.0, shape=(n_population,) + mean.shape) * jnp.sqrt(jnp.minimum(jnp.minimum((0.5 * (mean - lb)) ** 2, (0.5 * (ub - mean)) ** 2), var))[jnp.newaxis] + mean[jnp.newaxis]")
+    _cem_sample(ck, repo, nf, CS)
     CU = "rl_blox.blox.cross_entropy_method.cem_update"
     fn = repo.func(CU)
     got = nf.return_poly(CU, _env(fn))
     ck.need(got.elems is not None and len(got.elems) == 2, f"{CU}: must return (mean, var)")
-    sc = Scope(None, fn._module, _env(fn), CU)
-    el = "jnp.take(samples, jax.lax.top_k(fitness, n_elite)[1], axis=0)"
-    for k, (nm, stat) in enumerate((("mean", "jnp.mean"), ("var", "jnp.var"))):
-        want = nf.poly(parse_expr(f"alpha * {nm} + (1.0 - alpha) * {stat}({el}, axis=0)"), sc, None)
-        ok = got.elems[k] == want
-        ck.ob("R5-planning-chain", CU, f"convex-{nm}", ok, f"{nm}' = {got.elems[k].canon()[:150]}", "" if ok else f"must be alpha*{nm} + (1-alpha)*{stat[4:]}(elites): coefficients sum to one (convex), elites = top n_elite by fitness", loc(fn._module, fn))
+    m1 = got.elems[0]
+    avg = sorted(a for a in m1.atoms() if a.startswith("mean(") and "samples" in a)
+    others = sorted(a for a in m1.atoms() if a not in avg and a not in ("alpha", "mean"))
+    if len(avg) != 1 or others:
+        raise AnalysisError(f"{CU}: new mean `{m1.canon()[:120]}` is not a combination of the old mean and one average of candidates (convexity not decidable here)")
+    # affine weights: set the old mean and the average to 1 -> the weights must add up to exactly 1; each weight must be alpha resp. 1 - alpha
+    from fractions import Fraction
+    wsum = Poly({})
+    w = {"mean": Poly({}), avg[0]: Poly({})}
+    for mono, c in m1.terms.items():
+        rest = tuple((a, e) for a, e in mono if a not in w)
+        hit = [a for a, e in mono if a in w]
+        if len(hit) != 1 or any(e != 1 for a, e in mono if a in w):
+            raise AnalysisError(f"{CU}: new mean is not affine in (old mean, candidate average): `{m1.canon()[:120]}`")
+        w[hit[0]] = w[hit[0]] + Poly({rest: c})
+    al = Poly.atom("alpha", {"alpha"}, {"alpha"})
+    ok = (w["mean"] - al).is_zero() and (w[avg[0]] - (Poly.const(1) - al)).is_zero()
+    ck.ob("R5-planning-chain", CU, "convex-mean", ok, f"mean' = ({w['mean'].canon()})*mean + ({w[avg[0]].canon()})*{avg[0][:60]}",
+          "" if ok else "the weights of the old mean and of the candidate average must be alpha and 1 - alpha (non-negative, summing to one): otherwise the new mean can leave the box spanned by in-bounds candidates", loc(fn._module, fn))
     # R5 PETS chain
     q = "rl_blox.algorithm.pets._init_mpc_optimizer_cem"
     fn = repo.func(q)
@@ -231,6 +334,7 @@ def run(ck, repo: Repo, tier: str):
 
 _D, _T, _H, _C, _P = "rl_blox/algorithm/ddpg.py", "rl_blox/algorithm/td3.py", "rl_blox/blox/function_approximator/policy_head.py", "rl_blox/blox/cross_entropy_method.py", "rl_blox/algorithm/pets.py"
 MUTANTS = [
+    {"id": "c10-cem-one-sided", "file": _C, "rule": "R4", "find": "        jnp.minimum((0.5 * lb_dist) ** 2, (0.5 * ub_dist) ** 2),", "replace": "        jnp.minimum((0.5 * lb_dist) ** 2, (0.5 * lb_dist) ** 2),"},
     {"id": "c10-no-clip", "file": _D, "rule": "R", "find": "    return jnp.clip(exploring_action, action_low, action_high)", "replace": "    return exploring_action"},
     {"id": "c10-clip-swapped", "file": _D, "rule": "R", "find": "    return jnp.clip(exploring_action, action_low, action_high)", "replace": "    return jnp.clip(exploring_action, action_high, action_low)"},
     {"id": "c10-scale-no-half", "file": _D, "rule": "R1", "find": "    action_scale = 0.5 * (action_space.high - action_space.low)", "replace": "    action_scale = action_space.high - action_space.low"},
@@ -252,6 +356,9 @@ MUTANTS = [
     {"id": "c10-pets-last-plan-step", "file": _P, "rule": "R5", "find": "    return plan[0]", "replace": "    return plan[-1] + plan[0]"},
 ]
 BENIGN = [
+    {"id": "c10-b-cem-clip-samples", "file": _C, "find": "    return samples\n\n\ndef cem_update(", "replace": "    return jnp.clip(samples, lb, ub)\n\n\ndef cem_update("},
+    {"id": "c10-b-cem-quarter", "file": _C, "find": "        jnp.minimum((0.5 * lb_dist) ** 2, (0.5 * ub_dist) ** 2),", "replace": "        jnp.minimum(0.25 * lb_dist**2, 0.25 * jnp.square(ub_dist)),"},
+    {"id": "c10-b-cem-update-rewritten", "file": _C, "find": "    mean = alpha * mean + (1.0 - alpha) * jnp.mean(elites, axis=0)", "replace": "    elite_mean = jnp.mean(elites, axis=0)\n    mean = elite_mean + alpha * (mean - elite_mean)"},
     {"id": "c10-b-scale-div2", "file": _D, "find": "    action_scale = 0.5 * (action_space.high - action_space.low)", "replace": "    action_scale = (action_space.high - action_space.low) / 2"},
     {"id": "c10-b-inline-explore", "file": _D, "find": "    exploring_action = action + eps\n    return jnp.clip(exploring_action, action_low, action_high)", "replace": "    return jnp.clip(eps + action, action_low, action_high)"},
     {"id": "c10-b-tanh-commuted", "file": _H, "find": "        return nnx.tanh(y) * jnp.broadcast_to(\n            self.action_scale.value, y.shape\n        ) + jnp.broadcast_to(self.action_bias.value, y.shape)", "replace": "        return jnp.broadcast_to(self.action_bias.value, y.shape) + jnp.broadcast_to(\n            self.action_scale.value, y.shape\n        ) * nnx.tanh(y)"},
